@@ -23,7 +23,8 @@ RULE = ("files of n in {1,2,3,5,10,11,12,25,40} (rarely 1001-2100) feature lines
         "hashed together with the file text")
 REQUIRED = ["imports", "stored features compared", "byte-identical prints", "reopen comparisons", "re-import comparisons",
             "sql: INSERT INTO features", "imports from gzip files", "imports from CRLF files",
-            "imports after the same text was imported with ignore_url_escape_characters switched on"]
+            "imports after the same text was imported with ignore_url_escape_characters switched on",
+            "imports after an import of the same text failed half-way"]
 REQUIRED_CLASSES = ["fmt=gff3", "fmt=gtf", "fmt=gff2", "fmt=gff3q", "db=file", "db=memory", "strategy=error", "strategy=create_unique",
                     "regime=uniform", "regime=sparse"]
 ASSUMPTIONS = [
@@ -72,6 +73,7 @@ def gen_case(rng):
         "eol": "\r\n" if rng.random() < 0.15 else "\n",
         # the same text was imported earlier in this process while constants.ignore_url_escape_characters was switched on
         "prelude": rng.random() < 0.04,
+        "verbose": rng.choice(["not given", "not given", False, True, "debug"]),
         "items": items,
     }
 
@@ -137,6 +139,9 @@ def execute(ctx, case):
         data, from_string = text, True
     kw = dict(checklines=ck, merge_strategy=case["strategy"], keep_order=case["keep_order"],
               sort_attribute_values=case["sort_values"], from_string=from_string)
+    if case.get("verbose", "not given") != "not given":
+        kw["verbose"] = case["verbose"]
+        ctx.mon("imports with verbose=%r" % (case["verbose"],))
     if case.get("prelude"):
         from gffutils import constants
         constants.ignore_url_escape_characters = True
@@ -147,6 +152,18 @@ def execute(ctx, case):
         finally:
             constants.ignore_url_escape_characters = False
         ctx.mon("imports after the same text was imported with ignore_url_escape_characters switched on")
+        # ... and another import of the same text failed half-way (its transform raised) - nothing of it may linger
+        seen = [0]
+
+        def failing(f):
+            seen[0] += 1
+            if seen[0] > max(1, len(recs) // 2):
+                raise RuntimeError("harness: transform fails half-way")
+            return f
+        try:
+            gffutils.create_db(text, ":memory:", transform=failing, **dict(kw, from_string=True)).conn.close()
+        except Exception:
+            ctx.mon("imports after an import of the same text failed half-way")
     sqltrace.reset()
     try:
         db = gffutils.create_db(data, dbfn, **kw)
